@@ -170,6 +170,8 @@ EffectsOn(nd, o2) ==   \* effects run unless disabled by option or per dataset
 Eval(n, o) ==
     LET nd == NodeRec(n) IN
     CASE nd.k = "val" -> Ok(nd.v)
+      [] nd.k = "allopts" ->      \* AllOptions: the whole dictionary, resolved
+            LET r == Resolve(o, o) IN IF IsErr(r) THEN KeyNotFound(r.keys) ELSE Ok(r)
       [] nd.k = "opt" ->
             LET raw == Get(nd.p, o)
                 got == IF ~IsAbsent(raw)
@@ -270,6 +272,7 @@ Eval(n, o) ==
 Validate(n, o) ==
     LET nd == NodeRec(n) IN
     CASE nd.k = "val" -> OkV
+      [] nd.k = "allopts" -> LET r == Resolve(o, o) IN IF IsErr(r) THEN KeyNotFound(r.keys) ELSE OkV
       [] nd.k = "opt" ->
             IF Has(nd.p, o)
             THEN LET e == Eval(n, o) IN IF e.ok THEN OkV ELSE e
@@ -354,6 +357,7 @@ RefKeys(p, o) ==
 KeysOf(n, o) ==
     LET nd == NodeRec(n) IN
     CASE nd.k = "val" -> OkK({})
+      [] nd.k = "allopts" -> OkK({<<k>> : k \in DOMAIN o.d})     \* every top-level key
       [] nd.k = "opt" ->
             LET own == IF Has(nd.p, o) THEN RefKeys(nd.p, o)
                        ELSE IF nd.d # 0 THEN KeysOf(nd.d, o) ELSE KeyNotFound({nd.p}) IN
@@ -444,6 +448,7 @@ Insufficient == Fail("Insufficient", {}, "")
 Explain(n, o) ==
     LET nd == NodeRec(n) IN
     CASE nd.k = "val" -> OkK({})
+      [] nd.k = "allopts" -> OkK({<<k>> : k \in DOMAIN o.d})
       [] nd.k = "opt" ->
             LET own == IF Has(nd.p, o) THEN OkK({nd.p} \cup RefsTrans(Get(nd.p, o), o))
                        ELSE IF nd.d # 0 THEN Explain(nd.d, o) ELSE OkK({nd.p}) IN
@@ -546,7 +551,7 @@ OptVisit(m, o) == IF m = 0 THEN {} ELSE Visit(m, o)
 Visit(n, o) ==
     LET nd == NodeRec(n) IN
     {[n |-> n, o |-> o]} \cup
-    CASE nd.k = "val" -> {}
+    CASE nd.k \in {"val", "allopts"} -> {}
       [] nd.k = "opt" -> (IF Has(nd.p, o) THEN {} ELSE OptVisit(nd.d, o)) \cup OptVisit(nd.dom, o)
       [] nd.k = "pred" -> Visit(nd.arg, o)
       [] nd.k = "tmpl" -> VisitSeq([i \in 1 .. Len(nd.ps) |-> nd.ps[i].n], o)
@@ -638,7 +643,7 @@ Mentions(n) ==
     LET nd == NodeRec(n)
         Kids(ns) == UNION {Mentions(ns[i]) : i \in 1 .. Len(ns)}
         Opt(m) == IF m = 0 THEN {} ELSE Mentions(m) IN
-    CASE nd.k = "val" -> {}
+    CASE nd.k \in {"val", "allopts"} -> {}
       [] nd.k = "opt" -> {nd.p} \cup Opt(nd.d) \cup Opt(nd.dom)
       [] nd.k = "pred" -> Mentions(nd.arg)
       [] nd.k = "tmpl" -> RefsOf(nd.s) \cup UNION {Mentions(nd.ps[i].n) : i \in 1 .. Len(nd.ps)}
